@@ -91,6 +91,31 @@ CodePrinter::print_binary_reduction_impl(vec_basic::const_iterator begin,
     return s.str();
 }
 
+PrecedenceEnum CodePrinter::get_precedence(const RCP<const Basic> &x)
+{
+    // Expressions whose generated code is not a single token, a call or a
+    // parenthesized group although the expression itself is an atom
+    if (is_a<Cot>(*x) or is_a<Csc>(*x) or is_a<Sec>(*x) or is_a<Coth>(*x)
+        or is_a<Csch>(*x) or is_a<Sech>(*x)) {
+        // RewriteTrigVisitor prints these as 1/f(arg)
+        return PrecedenceEnum::Add;
+    }
+    if (is_a<UnevaluatedExpr>(*x)) {
+        // printed as its argument
+        PrecedenceEnum p = get_precedence(
+            down_cast<const UnevaluatedExpr &>(*x).get_arg());
+        if (p == PrecedenceEnum::Atom or p == PrecedenceEnum::Relational) {
+            return p;
+        }
+        return PrecedenceEnum::Add;
+    }
+    if (is_a<Contains>(*x)) {
+        // printed as one or two comparisons
+        return PrecedenceEnum::Relational;
+    }
+    return StrPrinter::get_precedence(x);
+}
+
 void CodePrinter::bvisit(const Basic &x)
 {
     throw SymEngineException("Not supported");
